@@ -72,6 +72,14 @@ def trivial(x):
     return ('t', x)
 
 
+class _BareYield:
+    """Awaitable that is not a RuntimeFuture (what asyncio.sleep(0)
+    amounts to): yields None to whoever drives the coroutine."""
+
+    def __await__(self):
+        yield
+
+
 def _busy(spec) -> None:
     """A long non-yielding step (numerical kernel): the worker's main
     thread is occupied for `busy` simulated seconds."""
@@ -189,6 +197,10 @@ async def run_ops(spec):
         elif k == 'raise':
             rec('raise', nid, op['marker'])
             raise ValueError(op['marker'])
+        elif k == 'await_foreign':
+            rec('raise', nid, op['marker'])
+            await _BareYield()
+            rec('foreign-await-returned', nid, i)
         elif k == 'log':
             blog.warning(op['marker'])
         elif k == 'spin':
